@@ -165,8 +165,17 @@ pub fn parse_multi_template(template: &str) -> Result<(Vec<TemplateSection>, boo
                 let mut brace_count = 1;
                 let mut template_content = String::new();
 
+                // A backslash escapes the next character, so `\{` and `\}` inside
+                // a section are argument text, not nesting.
+                let mut escaped = false;
                 for inner_ch in chars.by_ref() {
-                    if inner_ch == '{' {
+                    if escaped {
+                        escaped = false;
+                        template_content.push(inner_ch);
+                    } else if inner_ch == '\\' {
+                        escaped = true;
+                        template_content.push(inner_ch);
+                    } else if inner_ch == '{' {
                         brace_count += 1;
                         template_content.push(inner_ch);
                     } else if inner_ch == '}' {
